@@ -169,4 +169,30 @@ mod verif_store {
         kani::cover!(a_present && req_cas != 0 && req_cas != a_cas, "cas mismatch branch reachable");
         kani::cover!(a_present && req_cas == a_cas && req_cas != 0, "cas match branch reachable");
     }
+
+    // C16 (and the remove_if premise of C14): remove_if removes exactly the entries the predicate selects, returns
+    // them, calls the predicate once per entry, and never calls into the map while an iteration guard is alive
+    // (the stand-in asserts guards == 0 on every locking call).  BOUNDED: at most 2 entries.
+    #[kani::proof]
+    #[kani::unwind(6)]
+    fn store_remove_if() {
+        let store = MemoryStore::new(Arc::new(FixedTimer(0)));
+        let ka = Bytes::from_static(b"a");
+        let kb = Bytes::from_static(b"b");
+        let a_present: bool = kani::any();
+        if a_present { store.memory.insert(ka.clone(), any_record(b"va")); }
+        store.memory.insert(kb.clone(), any_record(b"vb"));
+        let pa: bool = kani::any();
+        let pb: bool = kani::any();
+        static CALLS: std::sync::atomic::AtomicUsize = std::sync::atomic::AtomicUsize::new(0);
+        let res = store.remove_if(&mut move |k: &KeyType, _r: &Record| { CALLS.fetch_add(1, Ordering::SeqCst); if k[..] == b"a"[..] { pa } else { pb } });
+        assert!(store.memory.guards.get() == 0);
+        assert!(CALLS.load(Ordering::SeqCst) == if a_present { 2 } else { 1 });
+        let n_sel = (if a_present && pa { 1 } else { 0 }) + (if pb { 1 } else { 0 });
+        assert!(res.len() == n_sel);
+        let mut i = 0;
+        while i < res.len() { assert!(res[i].is_some()); i += 1; }
+        assert!(store.memory.get(&ka).is_some() == (a_present && !pa));
+        assert!(store.memory.get(&kb).is_some() == !pb);
+    }
 }
